@@ -67,15 +67,15 @@ THEOREM_CLASSES = {
     "C01_order_wrapped_args_sequenced": "tripwire",       # the witnesses are still replayed and must agree
     "C01_order_indirect_store_sequenced": "tripwire",
     "C01_order_preserved_partial": "main",
-    "C01_vardecl_order_refuted": "refutation",    # two known findings (dropped initializer, trailing multiple-return call)
-    "C01_vardecl_order_iff_policy": "main",
-    "C01_vardecl_order_partial": "main",
+    "C01_vardecl_order": "main",                  # full strength since /repo d685d37, f54f9c0 (was _refuted)
+    "C01_vardecl_order_iff_policy": "tripwire",   # every placement: source order iff both statements go to defemitter
+    "C01_vardecl_order_partial": "corollary",
     "C01_tables_agree": "main",
     "C01_ladder_facts": "tripwire",
 }
 MANIFEST_ENTRY = {
-    "text": "proof, partial: theorems cover int64 + - * unary- & | ~ // % << >> and the six comparisons (= Lua for all operands; division by zero stops both), integer/float comparisons (refuted beyond 2^53, partial below; Lua's side exact), the numeric for loop (refuted at the type limits, partial inside), evaluation order of operands and call arguments (refuted when a function writes a variable another operand reads, proved when no function writes), the order of the values of a multi-variable declaration (refuted for today's generator, source order iff both statements go to defemitter), and the agreement of the two precedence tables under one precedence-climbing function.  Rest on differential testing only: floats, number formatting, strings, control flow, functions, require, the real PEG parser = climb, programs as a whole.",
-    "note": "no axioms; tie: scraped syntaxdefs.lua/lparser.c/cdefs.lua/cbuiltins.lua/cgenerator.lua facts in Gen.v, extracted model run against the real compiler (numdrv.nelua), the reference interpreter rebuilt from /repo/src and generated programs; 16 open findings replayed on every run; depends on coq/C03/{CSem,Helpers}.v and coq/C09/VarDecl.v (copied by sync_shared)",
+    "text": "proof, partial: theorems cover int64 + - * unary- & | ~ // % << >> and the six comparisons (= Lua for all operands; division by zero stops both), integer/float comparisons (refuted beyond 2^53, partial below; Lua's side exact), the numeric for loop (refuted at the type limits, partial inside), evaluation order of operands and call arguments (refuted when a function writes a variable another operand reads, proved when no function writes), the order of the values of a multi-variable declaration (source order, full strength since /repo d685d37 and f54f9c0), and the agreement of the two precedence tables under one precedence-climbing function.  Rest on differential testing only: floats, number formatting, strings, control flow, functions, require, the real PEG parser = climb, programs as a whole.",
+    "note": "no axioms; tie: scraped syntaxdefs.lua/lparser.c/cdefs.lua/cbuiltins.lua/cgenerator.lua facts in Gen.v, extracted model run against the real compiler (numdrv.nelua), the reference interpreter rebuilt from /repo/src and generated programs; 15 open findings replayed on every run; depends on coq/C03/{CSem,Helpers}.v and coq/C09/VarDecl.v (copied by sync_shared)",
     "technique": "Coq theorems about an executable Gallina model + generated parameters + behavioural correspondence of the extracted model; differential testing against reference Lua",
 }
 
@@ -633,7 +633,7 @@ WITNESS_PROGRAMS = [
      'for i = 1, 2.5 do print(i) end\nfor i = 1, 3 do print(i) end\n', 'gcc'),
     ("program: local v: number = -0.0 print(v - 0)",
      "local v: number = -0.0\nprint(v - 0)\n", "local v = -0.0\nprint(v - 0)\n", "gcc"),
-    # order of the values of a multi-variable declaration (theorem C01_vardecl_order_refuted, coq/C09/VarDecl.v)
+    # order of the values of a multi-variable declaration (repaired in /repo d685d37, f54f9c0: must agree; theorem C01_vardecl_order)
     ("program: local a, b = f(), g() with b never read, inside a function (f and g print)",
      "local function f(): integer print('f') return 1 end\nlocal function g(): integer print('g') return 2 end\n"
      "local function h() local a, b = f(), g() print(a) end\nh()\n",
@@ -845,18 +845,21 @@ def stream_vardecl(ctx, driver, interp, cov):
             if m["wf"] != "1" or on[k][0] != m["dce"] or olua[k][0] != m["src"]:
                 n_mm += 1
                 if n_mm <= 3:
-                    ctx.violation("model-mismatch:vardecl", "correspondence",
+                    differ = on[k][0] != olua[k][0]
+                    ctx.violation(("vardecl-order:%s" % line) if differ else "model-mismatch:vardecl", "oracle" if differ else "correspondence",
                                   "declaration `%s` (%s): Nelua evaluates %s (model %s), Lua %s (model %s)" % (line, c["form"], on[k][0], m["dce"], olua[k][0], m["src"]),
-                                  detail={"nelua_source": vardecl.programs(c, k)[0], "no_longer_checks": "correspondence stream C01/vardecl"}, failing_input=False)
+                                  detail={"nelua_source": vardecl.programs(c, k)[0], "no_longer_checks": "correspondence stream C01/vardecl"}, failing_input=differ)
             elif on[k][1] != olua[k][1]:
                 ctx.violation("vardecl-values:%s" % line, "oracle", "declaration `%s`: the variables hold %r in Nelua and %r in Lua" % (line, on[k][1], olua[k][1]),
                               detail={"nelua_source": vardecl.programs(c, k)[0]})
             elif m["dce"] != m["src"]:
-                n_pred += 1         # the two known defects (C01_vardecl_order_refuted), in the order the model of today's generator predicts
+                n_pred += 1         # cannot happen while C01_vardecl_order holds for the scraped placement
+                ctx.violation("vardecl-order:%s" % line, "oracle", "declaration `%s`: Nelua evaluates %s, Lua %s" % (line, on[k][0], olua[k][0]),
+                              detail={"nelua_source": vardecl.programs(c, k)[0]})
             else:
                 n_same += 1
     cov["vardecl"] = {"declarations": n_cases, "source_order": n_same,
-                      "order_differs_as_predicted_by_C01_vardecl_order_refuted": n_pred, "model_mismatches": n_mm}
+                      "order_differs_from_lua": n_pred, "model_mismatches": n_mm}
     return n_cases, n_cases, sample
 
 
